@@ -188,6 +188,14 @@ def replay_h_update_rules(n_old, u0, w0, u1, w1, n_upd):
     try:
         fn = os.path.join(d, "t.parq")
         fastparquet.write(fn, pd.DataFrame({"a": [1]}), custom_metadata=dict(old))
+        # the footer's key/value list is exactly the harness's existing entries, in order (fastparquet's own writer
+        # always puts its "pandas" entry first; other writers do not)
+        from vf.pyshim.realfile import rewrite_footer
+        from fastparquet import parquet_thrift as _pt
+
+        def only_old(fmd):
+            fmd.key_value_metadata = [_pt.KeyValue(key=k, value=v) for k, v in old.items()]
+        rewrite_footer(fn, only_old)
         model = dict(old)
         if ONE_DICT and len({k for k, _ in upds}) == len(upds):
             fastparquet.update_file_custom_metadata(fn, dict(upds))
